@@ -173,13 +173,14 @@ Definition pop (now : Z) (m : mgr) : mres :=
   | p :: rest =>
     let c := cur m in
     let copy := if live c then set_st c Done else c in
+    (* the parent is reinstated first, then charged: a termination while charging it leaves the stack popped *)
     match requireCPU now (cpu (used c)) p with
-    | RTerm p' t => MTerm (mkMgr c (p' :: rest)) t
-    | RPanic p' => MPanic (mkMgr c (p' :: rest))
+    | RTerm p' t => MTerm (mkMgr p' rest) t
+    | RPanic p' => MPanic (mkMgr p' rest)
     | ROk p1 =>
       match requireMem (mem (used c)) p1 with
-      | RTerm p' t => MTerm (mkMgr c (p' :: rest)) t
-      | RPanic p' => MPanic (mkMgr c (p' :: rest))
+      | RTerm p' t => MTerm (mkMgr p' rest) t
+      | RPanic p' => MPanic (mkMgr p' rest)
       | ROk p2 =>
         if trackTime p2 then
           let '(p3, t) := updateTimeUsed now p2 in
